@@ -1546,6 +1546,9 @@ class Engine(object):
                 ext = self.externals.get("def:" + fv.node.name)      # a repository function replaced by an assumed contract
                 if ext is not None:
                     return ext(self, args, kwargs, st, node)
+                if fv.cls is not None and fv.qual and args and fv.qual in self.externals:
+                    # Class.method(obj, ...): the unbound call of a method that the contract declares external
+                    return [(s2, val) for s2, val, _ in self.externals[fv.qual](self, args[0], list(args[1:]), kwargs, st, node)]
             return self.call_function(fv, args, kwargs, st, node)
         if isinstance(fv, (PyObj, BoundBuiltin, ClassRef)):
             return builtins_model.call_builtin(self, fv, args, kwargs, st, node)
